@@ -25,4 +25,14 @@ theorem C16_derive_shape :
     deriveStructArm = [40, 38, 40, 115, 101, 108, 102, 46, 110, 111, 100, 101, 115, 41, 41, 46, 105, 110, 116, 111, 40, 41] := by
   decide
 
+/-- the four conversions that do not destructure a tuple: a `Locate` is a leaf (one node, itself); `Vec<T>` appends the conversion of every
+    element in order; `Option<T>` appends the conversion of the payload or nothing; `Box<T>` is transparent. This is what the tree model assumes
+    when it takes "the children of a node" to be the concatenation, in field order, of what its fields convert to. -/
+theorem C16_conv_generic_shape :
+    convGeneric = [
+      ("Locate", "vec![RefNode::Locate(x)].into()"),
+      ("Vec<T>", "let mut ret = Vec::new(); for x in x { ret.append(&mut x.into().0); } ret.into()"),
+      ("Option<T>", "let mut ret = Vec::new(); if let Some(x) = x { ret.append(&mut x.into().0); } ret.into()"),
+      ("Box<T>", "let mut ret = Vec::new(); let mut x: RefNodes<'a> = (&**x).into(); ret.append(&mut x.0); ret.into()")] := rfl
+
 end Sv.Gen
